@@ -84,10 +84,13 @@ Definition agree (s : afs) (r : reply) (o : oreply) : bool :=
   | RPathconf n => match o with OPathconf 0 on => n =? on | _ => false end
   end.
 
-(* the hint a reply carries for the reference (handle chosen / out of space) *)
-Definition hint_of (o : oreply) : hint :=
+(* the hint a reply carries for the reference (handle chosen / out of space / short write) *)
+Definition hint_of (c : call) (o : oreply) : hint :=
   match o with
   | OHandle 0 h _ => HHandle h
+  | OWritten 0 ocnt _ _ => match c with
+                           | CWrite _ _ cnt _ _ => if ocnt <? cnt then HShort ocnt else HNone
+                           | _ => HNone end
   | _ => if (code_of o =? 28) || (code_of o =? 69) then HNoSpace else HNone   (* NFS3ERR_NOSPC / DQUOT *)
   end.
 
